@@ -194,6 +194,9 @@ func collectExprDeps(e Expr, locals map[string]bool, add func(string)) {
 		collectExprDeps(e.Index, locals, add)
 	case *MemberExpr:
 		collectExprDeps(e.Expr, locals, add)
+	case *BitcastExpr:
+		collectTypeRefs(e.Type, add)
+		collectExprDeps(e.Expr, locals, add)
 	}
 }
 
